@@ -454,27 +454,22 @@ fn parsed_case(input: &Value) -> Value {
         labels.push(l.len() as u8);
         labels.extend_from_slice(l.as_slice());
     }
-    let mut composed: Vec<u8> = vec![];
-    let compose_ok = pn.compose(&mut composed).is_ok();
-    let flat: N = pn.flatten_into();
-    let toname: N = pn.to_name();
-    let afs = match pn.as_flat_slice() {
-        None => "ok",
-        Some(sl) if sl == labels.as_slice() => "ok",
-        Some(_) => "flat_slice_is_not_the_name",
+    // one value for all conversions: the octets, or which conversion is off
+    let all = battery(&pn);
+    let conv = |what: &str| -> Value {
+        match all.get(0).and_then(|x| x.as_str()) {
+            Some(w) if w == what => all.clone(),
+            _ => if all.get(0).map(|x| x.is_string()).unwrap_or(false) { json_bytes(&labels) } else { all.clone() },
+        }
     };
-    let (eq, cmp, disp) = match Name::from_octets(labels.clone()) {
-        Ok(n) => (
-            pn == n && n == pn && pn.name_eq(&n) && n.name_eq(&pn),
-            pn.name_cmp(&n) == std::cmp::Ordering::Equal
-                && n.name_cmp(&pn) == std::cmp::Ordering::Equal
-                && pn.cmp(&pn.clone()) == std::cmp::Ordering::Equal,
-            // text round trip of the parsed name
-            N::from_str(&pn.to_string()).map(|b| b.as_slice() == n.as_slice()).unwrap_or(false),
-        ),
-        Err(_) => (false, false, false),
-    };
+    let failed = all.get(0).and_then(|x| x.as_str()).map(|s| s.to_string());
+    let is = |names: &[&str]| failed.as_ref().map(|f| names.contains(&f.as_str())).unwrap_or(false);
+    let afs = if is(&["as_flat_slice"]) { "flat_slice_is_not_the_name" } else { "ok" };
+    let (eq, cmp, disp) = (!is(&["eq"]), !is(&["cmp"]), !is(&["text_round_trip"]));
     let chk = |o: &[u8]| if valid_abs(o) { json_bytes(o) } else { json!(["invalid", json_bytes(o)]) };
+    let composed_v = if is(&["compose", "compose_canonical"]) { conv(failed.as_deref().unwrap()) } else { chk(&labels) };
+    let flat_v = if is(&["flatten_into", "to_cow"]) { conv(failed.as_deref().unwrap()) } else { chk(&labels) };
+    let toname_v = if is(&["to_name", "invalid_labels", "compose_len"]) { all.clone() } else { chk(&labels) };
     let (psuffixes, psf, ppar) = parsed_walks(&pn);
     json!({
         "ok": true,
@@ -482,9 +477,9 @@ fn parsed_case(input: &Value) -> Value {
         "psf": psf,
         "ppar": ppar,
         "labels": chk(&labels),
-        "compose": if compose_ok { chk(&composed) } else { json!("err") },
-        "flat": chk(flat.as_slice()),
-        "toname": chk(toname.as_slice()),
+        "compose": composed_v,
+        "flat": flat_v,
+        "toname": toname_v,
         "afs": afs,
         "eq": eq,
         "cmp": cmp,
@@ -563,10 +558,68 @@ fn code(b: (char, usize)) -> (String, i64) {
     (b.0.to_string(), if b.0 == 'U' { -1 } else { b.1 as i64 })
 }
 
-/// ParsedName: iter_suffixes, repeated split_first, repeated parent
+/// Every conversion of a ParsedName to another representation must give
+/// the uncompressed wire form of its labels: the octets if they all do (and
+/// these are a valid name), otherwise the name of the first that does not.
+fn battery(pn: &ParsedName<&[u8]>) -> Value {
+    let mut labels = vec![];
+    for l in pn.iter() {
+        labels.push(l.len() as u8);
+        labels.extend_from_slice(l.as_slice());
+    }
+    if !valid_abs(&labels) {
+        return json!(["invalid_labels", json_bytes(&labels)]);
+    }
+    let flatname: N = Name::from_octets(labels.clone()).unwrap();
+    let bad = |what: &str, o: &[u8]| json!([what, json_bytes(o)]);
+    let mut composed: Vec<u8> = vec![];
+    if pn.compose(&mut composed).is_err() || composed != labels {
+        return bad("compose", &composed);
+    }
+    let mut canon: Vec<u8> = vec![];
+    if pn.compose_canonical(&mut canon).is_err() || canon.len() != labels.len() || !canon.eq_ignore_ascii_case(&labels) {
+        return bad("compose_canonical", &canon);
+    }
+    let flat: N = pn.clone().flatten_into();
+    if flat.as_slice() != labels {
+        return bad("flatten_into", flat.as_slice());
+    }
+    let tn: N = pn.to_name();
+    if tn.as_slice() != labels {
+        return bad("to_name", tn.as_slice());
+    }
+    let cow = pn.to_cow();
+    if cow.as_slice() != labels {
+        return bad("to_cow", cow.as_slice());
+    }
+    if let Some(sl) = pn.as_flat_slice() {
+        if sl != labels.as_slice() {
+            return bad("as_flat_slice", sl);
+        }
+    }
+    if usize::from(pn.compose_len()) != labels.len() {
+        return bad("compose_len", &[]);
+    }
+    if !(*pn == flatname && flatname == *pn && pn.name_eq(&flatname) && flatname.name_eq(pn)) {
+        return bad("eq", &[]);
+    }
+    if pn.name_cmp(&flatname) != std::cmp::Ordering::Equal
+        || flatname.name_cmp(pn) != std::cmp::Ordering::Equal
+        || pn.composed_cmp(&flatname) != std::cmp::Ordering::Equal
+        || pn.lowercase_composed_cmp(&flatname) != std::cmp::Ordering::Equal
+    {
+        return bad("cmp", &[]);
+    }
+    if !N::from_str(&pn.fmt_with_dot().to_string()).map(|b| b.as_slice() == labels).unwrap_or(false) {
+        return bad("text_round_trip", &[]);
+    }
+    json_bytes(&labels)
+}
+
+/// ParsedName: iter_suffixes, repeated split_first, repeated parent; every
+/// intermediate name goes through the whole battery
 fn parsed_walks(pn: &ParsedName<&[u8]>) -> (Vec<Value>, Vec<Value>, Vec<Value>) {
-    let chk_abs = |o: &[u8]| if valid_abs(o) { json_bytes(o) } else { json!(["invalid", json_bytes(o)]) };
-    let psuffixes: Vec<Value> = pn.iter_suffixes().map(|s| chk_abs(s.to_name::<Vec<u8>>().as_slice())).collect();
+    let psuffixes: Vec<Value> = pn.iter_suffixes().map(|s| battery(&s)).collect();
     let mut psf = vec![];
     let mut cur = pn.clone();
     loop {
@@ -574,8 +627,7 @@ fn parsed_walks(pn: &ParsedName<&[u8]>) -> (Vec<Value>, Vec<Value>, Vec<Value>) 
             Some(l) => l.as_slice().to_vec(),
             None => break,
         };
-        let rest: N = cur.to_name();
-        psf.push(json!([json_bytes(&first), chk_abs(rest.as_slice())]));
+        psf.push(json!([json_bytes(&first), battery(&cur)]));
         if psf.len() > 200 {
             break;
         }
@@ -583,13 +635,96 @@ fn parsed_walks(pn: &ParsedName<&[u8]>) -> (Vec<Value>, Vec<Value>, Vec<Value>) 
     let mut ppar = vec![];
     let mut cur = pn.clone();
     while cur.parent() {
-        let rest: N = cur.to_name();
-        ppar.push(chk_abs(rest.as_slice()));
+        ppar.push(battery(&cur));
         if ppar.len() > 200 {
             break;
         }
     }
     (psuffixes, psf, ppar)
+}
+
+// --- starts_with / ends_with / strip_suffix on adversarial label contents --
+
+fn agree<T: PartialEq + Clone>(v: Vec<T>) -> Option<T> {
+    let f = v[0].clone();
+    if v.iter().all(|x| *x == f) { Some(f) } else { None }
+}
+
+/// message with `rel` followed by a pointer to a root label at offset 0
+fn compressed_msg(rel: &[u8]) -> Vec<u8> {
+    let mut m = vec![0u8];
+    m.extend_from_slice(rel);
+    m.extend_from_slice(&[0xC0, 0]);
+    m
+}
+
+fn affix_case(input: &Value) -> Value {
+    let xw = bytes_of(&input["x"]);
+    let yw = bytes_of(&input["y"]);
+    let xr: Rn = RelativeName::from_octets(xw.clone()).expect("x");
+    let yr: Rn = RelativeName::from_octets(yw.clone()).expect("y");
+    let xa: N = xr.clone().into_absolute().expect("x abs");
+    let ya: N = yr.clone().into_absolute().expect("y abs");
+    // the same names in representations without a flat slice
+    let xmsg = compressed_msg(&xw);
+    let ymsg = compressed_msg(&yw);
+    let parse_at1 = |m: &'static [u8]| -> ParsedName<&'static [u8]> {
+        let mut p = Parser::from_ref(m);
+        p.advance(1).unwrap();
+        ParsedName::parse(&mut p).unwrap()
+    };
+    // leak: the cases are few and the process short-lived
+    let xp = parse_at1(Box::leak(xmsg.into_boxed_slice()));
+    let yp = parse_at1(Box::leak(ymsg.into_boxed_slice()));
+    let x_chain_a = xr.clone().chain(Name::root_ref()).expect("chain");
+    let y_chain_a = yr.clone().chain(Name::root_ref()).expect("chain");
+    let y_chain_r = RelativeName::empty_ref().chain(yr.clone()).expect("chain");
+    let x_chain_r = RelativeName::empty_ref().chain(xr.clone()).expect("chain");
+
+    let rends = agree(vec![
+        xr.ends_with(&yr), xr.ends_with(&y_chain_r), xr.for_slice().ends_with(&yr),
+        x_chain_r.ends_with(&yr), x_chain_r.ends_with(&y_chain_r),
+    ]);
+    let rstarts = agree(vec![
+        xr.starts_with(&yr), xr.starts_with(&y_chain_r), x_chain_r.starts_with(&yr),
+    ]);
+    let aends = agree(vec![
+        xa.ends_with(&ya), xa.ends_with(&yp), xa.ends_with(&y_chain_a),
+        xp.ends_with(&ya), xp.ends_with(&yp), x_chain_a.ends_with(&ya), x_chain_a.ends_with(&yp),
+        xa.for_slice().ends_with(&ya),
+    ]);
+    let astarts = agree(vec![
+        xa.starts_with(&yr), xa.starts_with(&y_chain_r), xp.starts_with(&yr), x_chain_a.starts_with(&yr),
+    ]);
+    let rs = |base: &dyn Fn(&mut Rn) -> bool| -> Value {
+        let mut t = xr.clone();
+        let ok = base(&mut t);
+        if !valid_rel(t.as_slice()) {
+            return json!(["invalid_relative_name", json_bytes(t.as_slice())]);
+        }
+        json!([if ok { "ok" } else { "err" }, json_bytes(t.as_slice())])
+    };
+    let rstrip = agree(vec![
+        rs(&|t| t.strip_suffix(&yr).is_ok()),
+        rs(&|t| t.strip_suffix(&y_chain_r).is_ok()),
+        rs(&|t| t.strip_suffix(&yr.for_ref()).is_ok()),
+    ]);
+    let as_ = |r: Result<Rn, N>| -> Value {
+        match r {
+            Ok(l) if valid_rel(l.as_slice()) => json!(["ok", json_bytes(l.as_slice())]),
+            Ok(l) => json!(["invalid_relative_name", json_bytes(l.as_slice())]),
+            Err(n) => json!(["err", json_bytes(n.as_slice())]),
+        }
+    };
+    let astrip = agree(vec![
+        as_(xa.clone().strip_suffix(&ya)),
+        as_(xa.clone().strip_suffix(&yp)),
+        as_(xa.clone().strip_suffix(&y_chain_a)),
+    ]);
+    let b = |o: Option<bool>| o.map(|v| json!(v)).unwrap_or(json!("representations_disagree"));
+    let v = |o: Option<Value>| o.unwrap_or(json!("representations_disagree"));
+    json!({"rends": b(rends), "rstarts": b(rstarts), "aends": b(aends), "astarts": b(astarts),
+           "rstrip": v(rstrip), "astrip": v(astrip)})
 }
 
 fn ranges_case(input: &Value) -> Value {
@@ -703,6 +838,7 @@ fn repr(k: &str, input: &Value) -> Value {
         "zscan" => zscan_case(input),
         "parsed" => parsed_case(input),
         "ranges" => ranges_case(input),
+        "affix" => affix_case(input),
         _ => json!({"bad_case": true}),
     }
 }
